@@ -32,7 +32,7 @@ var (
 
 var corrFields = []string{"sourcePodName", "sourcePodNamespace", "sourceNodeName", "destinationPodName", "destinationPodNamespace",
 	"destinationNodeName", "destinationClusterIPv4", "destinationServicePort", "ingressNetworkPolicyRuleAction",
-	"egressNetworkPolicyRuleAction", "ingressNetworkPolicyRulePriority"}
+	"egressNetworkPolicyRuleAction", "ingressNetworkPolicyRulePriority", "destinationClusterIPv6"}
 var statsElems = []string{"packetTotalCount", "packetDeltaCount", "octetTotalCount", "octetDeltaCount",
 	"reversePacketTotalCount", "reversePacketDeltaCount", "reverseOctetTotalCount", "reverseOctetDeltaCount"}
 
